@@ -14,6 +14,8 @@ CLAIMED = {
  "C11": ("exploration", "Raw engine clients interleaved by the seeded scheduler on every engine and wrapper, with batches and iterators kept open across other clients' commits; a sorted-map reference model runs in lock-step and the final scan must equal it.", "6 (C11)"),
  "C12": ("exploration", "Seeded sequential request histories replayed in lock-step on four engine stacks under the simulated clock; normalised transcripts (success flags, error-vs-response, values, revision ranks, range contents, events) compared. No schedule dimension: seeded history generation against a differential oracle.", "6 (C12)"),
  "C13": ("exploration", "Seeded histories read through List/Count/ListByStream/GetPartitions under partition borders injected at the storage seam (index records, mid-version, synthetic keys; any order) and compared with the unpartitioned MVCC model; stream shape and header revisions checked.", "6 (C13)"),
+ "C14": ("exploration", "Competing candidates drive the real resourcelock.Interface over a shared engine under seeded schedules; the lock key's ground truth is checked as a compare-and-swap register and the recorded history is checked with porcupine against a CAS-register model.", "6 (C14)"),
+ "C15": ("exploration", "Real client-go elector on the simulated clock; old leader crashes after an arbitrary request, a new leader is elected after lease expiry and probed; every revision it hands out is compared with the maximum stored revision from the ground truth.", "6 (C15)"),
 }
 TECH = "deterministic simulation with fault injection (seeded token scheduler over testing/synctest, simkv fault seam, reference-model oracles)"
 NOTE = "Trusted: Go 1.26.8 testing/synctest quiescence, the simulator's decoder of the key layout, the hook lines (add-only, tag verif). Sampled search: clean run = evidence, not proof."
